@@ -42,7 +42,7 @@ theorem runBody_leaf (k : SSt → Task → SSt × Option Nat) (p : SProg) (st : 
 
 theorem flush_empty (p : SProg) (fuel : Nat) (s : SSt) (h : s.wq = []) : (exec p fuel s .flush).1 = s := by
   cases fuel with
-  | zero => rfl
+  | zero => simp [exec, h]
   | succ n => simp [exec, h]
 
 /-- **Runs once, returns its output, state persists** (`syscall`): a call of a system with no nested operations
